@@ -53,6 +53,7 @@ var impWants = []impWant{
 	{dir: "formats/fasta", pkg: "fasta", funcs: []string{"Fasta.Write"}, join: true},
 	{dir: "formats/fasta", pkg: "fastard", funcs: []string{"reader.read"}, errZ: true},
 	{dir: "formats/fastq", pkg: "fastq", funcs: []string{"Fastq.Write"}, join: true},
+	{dir: "formats/fastq", pkg: "fastqrd", funcs: []string{"reader.read"}, errZ: true, join: true},
 	{dir: "formats/bed", pkg: "bed", funcs: []string{"BED.Write", "parseLine"}, join: true},
 	{dir: "formats/newick", pkg: "newick", funcs: []string{"quoted", "nameFromText", "nameToText", "Node.traverse"}, floatAs: "F"},
 }
@@ -94,6 +95,7 @@ type impTr struct {
 	errZ     bool // errors are Z codes (0 nil, 1 io.EOF, 2 other, 3 io.ErrUnexpectedEOF) instead of bools
 	stream   bool // the receiver is a reader over a *bufio.Reader: the stream state rd__ is threaded
 	label    string
+	streamTy string
 	results  *types.Tuple
 	loopVars []map[types.Object]bool
 }
@@ -820,6 +822,30 @@ func (t *impTr) call(e *ast.CallExpr, pre *[]opener) string {
 			return v
 		}
 	}
+	if obj != nil && t.stream {
+		if f, ok := obj.(*types.Func); ok {
+			if sig := f.Type().(*types.Signature); sig.Recv() != nil && strings.HasSuffix(sig.Recv().Type().String(), "bufio.Scanner") {
+				switch f.Name() {
+				case "Scan":
+					v := t.fresh()
+					*pre = append(*pre, opener{fmt.Sprintf("let '(%s, rd__) := go_scan rd__ in ", v), ""})
+					return v
+				case "Err":
+					return "(go_scan_err rd__)"
+				case "Bytes", "Text":
+					return "(sc_cur rd__)"
+				}
+			}
+		}
+	}
+	if obj != nil && obj.Pkg() != nil {
+		switch obj.Pkg().Path() + "." + obj.Name() {
+		case "slices.Clone":
+			return t.ex(e.Args[0], pre)
+		case "bytes.HasPrefix":
+			return fmt.Sprintf("(is_prefix %s %s)", t.ex(e.Args[1], pre), t.ex(e.Args[0], pre))
+		}
+	}
 	if fn, ok := t.fns[obj]; ok {
 		args := []string{}
 		if fn.fuel {
@@ -953,7 +979,8 @@ func isBufioMethod(o types.Object) bool {
 		return false
 	}
 	sig := f.Type().(*types.Signature)
-	return sig.Recv() != nil && strings.HasSuffix(sig.Recv().Type().String(), "bufio.Reader")
+	return sig.Recv() != nil && (strings.HasSuffix(sig.Recv().Type().String(), "bufio.Reader") ||
+		(strings.HasSuffix(sig.Recv().Type().String(), "bufio.Scanner") && f.Name() == "Scan"))
 }
 
 func (t *impTr) tuple(objs []types.Object, yields int) string {
@@ -1636,7 +1663,14 @@ func (t *impTr) function(fd *ast.FuncDecl, coqName string) *impFn {
 					if strings.HasSuffix(st.Field(i).Type().String(), "bufio.Reader") {
 						// a reader object: its *bufio.Reader is the threaded stream state rd__
 						t.stream = true
+						t.streamTy = "go_stream"
 						params = append(params, "(rd__ : go_stream)")
+						return
+					}
+					if strings.HasSuffix(st.Field(i).Type().String(), "bufio.Scanner") {
+						t.stream = true
+						t.streamTy = "go_scanner"
+						params = append(params, "(rd__ : go_scanner)")
 						return
 					}
 				}
@@ -1740,7 +1774,7 @@ func (t *impTr) function(fd *ast.FuncDecl, coqName string) *impFn {
 				r := inner(v) // "Ret (...)" or "Ret tt"
 				return "Ret (rd__, " + strings.TrimPrefix(r, "Ret ") + ")"
 			}
-			rt = "(go_stream * " + rt + ")"
+			rt = "(" + t.streamTy + " * " + rt + ")"
 		}
 		text = wrapOpeners(pre, t.block(body, end, nil))
 	}
